@@ -706,7 +706,75 @@ func streamParseHandoff(w *World, r *Report, so *streamObjs) {
 			}
 			return false
 		}
-		classifyP := func(n ast.Node, emit func(cfgEvent)) {
+		var classifyP func(n ast.Node, emit func(cfgEvent))
+		helperDepth := 0
+		classifyP = func(n ast.Node, emit func(cfgEvent)) {
+			// a helper of the stream that is handed the buffer: its operations on the buffer happen here, in the
+			// helper's statement order (the buffer is the helper's parameter there)
+			if es, ok := n.(*ast.ExprStmt); ok && helperDepth < 2 {
+				if c, ok := es.X.(*ast.CallExpr); ok {
+					if fn, ok := typeutil.Callee(info, c).(*types.Func); ok {
+						if hf := w.FuncOf(fn); hf != nil && hf != pf && hf.Recv != nil && hf.Recv == pf.Recv && hf.Decl.Body != nil {
+							var param types.Object
+							pi := 0
+							for _, fl := range hf.Decl.Type.Params.List {
+								for _, nm := range fl.Names {
+									if pi < len(c.Args) && identObj(info, c.Args[pi]) == bObj {
+										param = hf.Pkg.TypesInfo.Defs[nm]
+									}
+									pi++
+								}
+							}
+							if param != nil {
+								saveB, saveViews := bObj, views
+								bObj, views = param, map[types.Object]bool{}
+								ast.Inspect(hf.Decl.Body, func(q ast.Node) bool {
+									if as, ok := q.(*ast.AssignStmt); ok && len(as.Lhs) == len(as.Rhs) {
+										for i, l := range as.Lhs {
+											if o := identObj(info, l); o != nil && o != bObj && isByteSlice(o.Type()) && usesObj(info, as.Rhs[i], bObj) {
+												views[o] = true
+											}
+										}
+									}
+									return true
+								})
+								helperDepth++
+								outerEmit := emit
+								emit := func(e cfgEvent) {
+									if e.Obj == param {
+										e.Obj = saveB // the helper's parameter is the caller's buffer
+									}
+									outerEmit(e)
+								}
+								var walk func(list []ast.Stmt)
+								walk = func(list []ast.Stmt) {
+									for _, st := range list {
+										switch b := st.(type) {
+										case *ast.BlockStmt:
+											walk(b.List)
+										case *ast.IfStmt:
+											// the condition may use the buffer; the branches are walked in order
+											if usesBuf(b.Cond) {
+												emit(cfgEvent{Kind: "U", Node: b.Cond})
+											}
+											walk(b.Body.List)
+											if eb, ok := b.Else.(*ast.BlockStmt); ok {
+												walk(eb.List)
+											}
+										default:
+											classifyP(st, emit)
+										}
+									}
+								}
+								walk(hf.Decl.Body.List)
+								helperDepth--
+								bObj, views = saveB, saveViews
+								return
+							}
+						}
+					}
+				}
+			}
 			if as, ok := n.(*ast.AssignStmt); ok && len(as.Rhs) == 1 && chanRecvOf(info, as.Rhs[0], so.poolFull) {
 				emit(cfgEvent{Kind: "R", Node: n})
 				return
